@@ -1159,13 +1159,20 @@ fn one_case(w: &mut impl std::io::Write, seed: u64, k: usize, src: &str) {
     }
 }
 
+/// Start time (ms since the process started, +1) of the case being run; 0 = idle.
+static CASE_STARTED_MS: std::sync::atomic::AtomicU64 = std::sync::atomic::AtomicU64::new(0);
+
 pub fn run(args: &[String]) -> ExitCode {
     let mut from = 0usize;
+    let mut limit_ms = 20_000u64;
     let mut files = Vec::new();
     let mut i = 0;
     while i < args.len() {
         if args[i] == "--from" {
             from = args[i + 1].parse().expect("--from N");
+            i += 1;
+        } else if args[i] == "--limit-ms" {
+            limit_ms = args[i + 1].parse().expect("--limit-ms N");
             i += 1;
         } else {
             files.push(args[i].clone());
@@ -1185,6 +1192,18 @@ pub fn run(args: &[String]) -> ExitCode {
         let loc = info.location().map_or(String::new(), |l| format!("{}:{}", l.file(), l.line()));
         LAST_PANIC.with(|m| *m.borrow_mut() = loc);
     }));
+    // watchdog: a program that does not terminate (the generator's mutations can produce one) must
+    // not stall the run; exit code 97 tells the caller that the announced case timed out
+    let t0 = std::time::Instant::now();
+    std::thread::spawn(move || {
+        loop {
+            std::thread::sleep(std::time::Duration::from_millis(100));
+            let st = CASE_STARTED_MS.load(std::sync::atomic::Ordering::Relaxed);
+            if st != 0 && t0.elapsed().as_millis() as u64 > st + limit_ms {
+                std::process::exit(97);
+            }
+        }
+    });
     let handle = std::thread::Builder::new()
         .stack_size(16 * MEBI)
         .spawn(move || {
@@ -1200,12 +1219,14 @@ pub fn run(args: &[String]) -> ExitCode {
                 }
                 writeln!(w, "CASE {idx} {}", p[1]).unwrap();
                 w.flush().unwrap();
+                CASE_STARTED_MS.store(t0.elapsed().as_millis() as u64 + 1, std::sync::atomic::Ordering::Relaxed);
                 let seed: u64 = p[2].parse().unwrap_or(1);
                 let k: usize = p[3].parse().unwrap_or(6);
                 match unhex(p[4]) {
                     Some(src) => one_case(&mut w, seed, k, &src),
                     None => writeln!(w, "SKIP not-utf8").unwrap(),
                 }
+                CASE_STARTED_MS.store(0, std::sync::atomic::Ordering::Relaxed);
                 writeln!(w, "END {idx}").unwrap();
                 w.flush().unwrap();
             }
